@@ -345,6 +345,21 @@ def check_bs(case, ctx):
                         d3 = np.abs(B - S3).max(axis=1)
                         ctx.le("batch run = stream with the step passed as update(dt=...)", float(d3.max()), TOL_BS,
                                {"first_differing_sample": int(np.argmax(d3 > TOL_BS)) if (d3 > TOL_BS).any() else -1, "params": kw}, route=r2)
+    if name.startswith("ROLEQ") and b1.ok:
+        # the one random draw is the start vector of the OLEQ solution for the first sample: a run that is GIVEN its start attitude (q0= to the
+        # constructor, or the first argument of update()) has nothing left to draw, and leaves NumPy's global stream where it was - so that a
+        # random-start estimator running after it gets the numbers it would have got without it
+        def rng_key():
+            st = np.random.get_state()
+            return (st[1].tobytes(), st[2], st[3], st[4])
+        np.random.seed(seed)
+        k0 = rng_key()
+        B0 = np.asarray(b1.value, float)[0].copy()
+        for lab_, thunk in (("constructor with q0=", lambda: run_batch(name, dict(kw, q0=B0.copy()), g, a, m, seed, order)),
+                            ("update() fed sample by sample", lambda: run_stream(name, kw, B0, g, a, m, seed, order))):
+            o_ = call(thunk)
+            if o_.ok:
+                ctx.ok("a run given its start attitude draws nothing from NumPy's global random stream", rng_key() == k0, {"run": lab_}, route="shared-state")
     after = snapshot()
     shared_state_clause(ctx, before, after, rng_allowed=(name in ("OLEQ",) or name.startswith("ROLEQ")))
 
